@@ -1,13 +1,15 @@
 #!/usr/bin/env python3
 """Mutant gauntlet (not a registered check): applies one textual mutation at a
-time to /repo's working tree, runs the quick tier of the properties it should
-break, expects exit 1 + VIOLATION, and restores /repo with git checkout.
+time to a scratch git worktree of /repo's HEAD (outside /repo and /verif,
+removed at the end), runs the quick tier of the properties it should break
+against it (VERIF_REPO / VERIF_OUT), and expects exit 1 + VIOLATION.
 
 usage: selftest/mutants.py [name-substring ...]      (run from /verif)
 """
 import subprocess, sys, os, time
 
-REPO = "/repo"
+REPO = "/tmp/vmut/wt"
+OUT = "/tmp/vmut/out"
 M = []  # (name, file, old, new, [props])
 
 def m(name, file, old, new, props, count=1):
@@ -119,33 +121,37 @@ def sh(cmd, **kw):
 
 def main():
     sel = sys.argv[1:]
-    if sh("git -C %s status --porcelain" % REPO).stdout.strip():
-        print("refusing: /repo working tree is dirty"); sys.exit(2)
-    env = dict(os.environ, GOFLAGS="-mod=mod", GOPROXY="off", GOSUMDB="off", GOTOOLCHAIN="local")
+    env = dict(os.environ, GOFLAGS="-mod=mod", GOPROXY="off", GOSUMDB="off", GOTOOLCHAIN="local", VERIF_REPO=REPO, VERIF_OUT=OUT)
+    sh("git -C /repo worktree remove --force %s; rm -rf /tmp/vmut; mkdir -p %s; git -C /repo worktree prune" % (REPO, OUT))
+    r = sh("git -C /repo worktree add --detach %s HEAD" % REPO)
+    if r.returncode != 0:
+        print("cannot create scratch worktree:", r.stderr); sys.exit(2)
     res = []
-    for name, file, old, new, props, count in M:
-        if sel and not any(s in name for s in sel):
-            continue
-        path = os.path.join(REPO, file)
-        src = open(path).read()
-        if src.count(old) < 1:
-            res.append((name, "PATTERN-NOT-FOUND")); print(name, "PATTERN-NOT-FOUND"); continue
-        try:
-            open(path, "w").write(src.replace(old, new, count))
-            b = sh("cd %s && go build ./... " % REPO, env=env)
-            if b.returncode != 0:
-                res.append((name, "DOES-NOT-COMPILE")); print(name, "DOES-NOT-COMPILE", b.stderr[:300]); continue
-            for p in props:
-                t0 = time.time()
-                c = sh("cd /verif && ./check %s quick" % p, env=env)
-                ok = c.returncode == 1 and "VIOLATION property=%s" % p in c.stdout
-                first = [l for l in c.stdout.splitlines() if "violation[" in l][:1]
-                print("%-28s %s %-9s %5.1fs %s" % (name, p, "CAUGHT" if ok else "MISSED(rc=%d)" % c.returncode, time.time() - t0, (first[0][:160] if first else "")))
-                res.append((name + ":" + p, "CAUGHT" if ok else "MISSED"))
-        finally:
-            sh("git -C %s checkout -- ." % REPO)
+    try:
+        for name, file, old, new, props, count in M:
+            if sel and not any(s in name for s in sel):
+                continue
+            path = os.path.join(REPO, file)
+            src = open(path).read()
+            if src.count(old) < 1:
+                res.append((name, "PATTERN-NOT-FOUND")); print(name, "PATTERN-NOT-FOUND"); continue
+            try:
+                open(path, "w").write(src.replace(old, new, count))
+                b = sh("cd %s && go build ./... " % REPO, env=env)
+                if b.returncode != 0:
+                    res.append((name, "DOES-NOT-COMPILE")); print(name, "DOES-NOT-COMPILE", b.stderr[:300]); continue
+                for p in props:
+                    t0 = time.time()
+                    c = sh("cd /verif && ./check %s quick" % p, env=env)
+                    ok = c.returncode == 1 and "VIOLATION property=%s" % p in c.stdout
+                    first = [l for l in c.stdout.splitlines() if "violation[" in l][:1]
+                    print("%-28s %s %-9s %5.1fs %s" % (name, p, "CAUGHT" if ok else "MISSED(rc=%d)" % c.returncode, time.time() - t0, (first[0][:160] if first else "")))
+                    res.append((name + ":" + p, "CAUGHT" if ok else "MISSED"))
+            finally:
+                sh("git -C %s checkout -- ." % REPO)
+    finally:
+        sh("git -C /repo worktree remove --force %s; rm -rf /tmp/vmut; git -C /repo worktree prune" % REPO)
     missed = [r for r in res if r[1] != "CAUGHT"]
     print("\n%d mutants run, %d not caught: %s" % (len(res), len(missed), missed))
-    sh("cd /verif && git checkout -- evidence 2>/dev/null")
 
 main()
